@@ -228,32 +228,40 @@ def layout_of(case):
 
 
 def c05_oracle(case, field="B"):
-    """the property itself on an exact case: every entry = sum of single-leaf calls (same sensors);
-    sumup = sum of entries.  Returns None or (clause, detail)."""
+    """the property itself on an exact case: every entry = sum over its leaves of single-source,
+    single-sensor calls (pixel aggregation applied after the sum); sumup = sum of the entries.
+    Returns None or (clause, detail)."""
     srcs, sens = level2.build(case)
-    base = dict(case, sumup=False)
     try:
-        got = np.array(run_real(srcs, sens, case, field), dtype=float)
+        got = run_real(srcs, sens, case, field)
     except MagpylibBadUserInput:
         return None
+    plain = dict(case, sumup=False, agg=0)
     entries = level2.resolve(case["sources"])
-    M = got.shape[1]
+    sensd = level2.resolve(case["sensors"])
+    M = len(got[0])
+    aggf = {0: None, 1: np.sum, 2: np.min, 3: np.max}[case["agg"]]
     exp = []
     for s in entries:
         leaves = tree_leaves(s["tree"]) if "tree" in s else [s["leaf"]]
-        tot = 0
-        for l in leaves:
-            one = np.array(run_real([level2.build_leaf(l)], level2.build(case)[1], base, field), dtype=float)[0]
-            if one.shape[0] < M:      # shorter path: static afterwards
-                one = np.concatenate([one, np.repeat(one[-1:], M - one.shape[0], axis=0)])
-            tot = tot + one
-        exp.append(tot)
-    exp = np.array(exp)
+        per_sensor = []
+        for sd in sensd:
+            tot = 0
+            for l in leaves:
+                one = np.array(run_real([level2.build_leaf(l)], [level2.build_sensor(sd)], plain, field), dtype=float)[0][:, 0]
+                if one.shape[0] < M:      # shorter path: static afterwards
+                    one = np.concatenate([one, np.repeat(one[-1:], M - one.shape[0], axis=0)])
+                tot = tot + one
+            if aggf is not None:
+                tot = aggf(tot, axis=1, keepdims=True)
+            per_sensor.append(tot)          # (M, pix, 3)
+        exp.append([[np.rint(ps[m]).astype(int).tolist() for ps in per_sensor] for m in range(M)])
     if case["sumup"]:
-        exp = exp.sum(axis=0, keepdims=True)
-    if got.shape != exp.shape:
-        return ("one-entry", f"output shape {got.shape} instead of {exp.shape}")
-    if not np.array_equal(got, exp):
+        tot = [[(np.sum([np.array(e[m][k]) for e in exp], axis=0)).tolist() for k in range(len(sensd))] for m in range(M)]
+        exp = [tot]
+    if len(got) != len(exp):
+        return ("one-entry", f"{len(got)} output entries for {len(exp)} expected")
+    if got != exp:
         return ("sumup" if case["sumup"] else "collection-sum", "entry differs from the sum of its leaves' single-source fields")
     return None
 
